@@ -16,10 +16,11 @@ MAX_UNROLL = 600
 
 
 class Exit:
-    __slots__ = ("guard", "kind", "value", "node", "func", "exc")
+    __slots__ = ("guard", "kind", "value", "node", "func", "exc", "facts")
 
-    def __init__(self, guard, kind, value, node, func, exc=None):
+    def __init__(self, guard, kind, value, node, func, exc=None, facts=()):
         self.guard = tuple(guard)
+        self.facts = tuple(facts)
         self.kind = kind  # 'return' | 'raise'
         self.value = value
         self.node = node
@@ -50,6 +51,7 @@ class Summary:
         self.exits = []
         self.loops = []
         self.calls = []  # (qualname or extern name, args, kwargs, node, guard)
+        self.hazards = []  # (exception class, operand term, node, guard, facts, func): primitive raise sites
         self.env = {}
         self.notes = []
 
@@ -187,6 +189,7 @@ class Evaluator:
         self._const_busy = set()
         self._stack = []
         self.assumptions = {}  # boolean term -> bool: mode facts fixed by the obligation (E4)
+        self.bind = {}  # term -> concrete representative of its region (E4)
 
     def decide(self, c):
         """Fold a condition with the obligation's mode assumptions."""
@@ -268,7 +271,7 @@ class Evaluator:
         try:
             done = self.block(fi.node.body, fr)
             if not done:
-                summary.exits.append(Exit(fr.guard, "return", None, fi.node, fi.qualname))
+                summary.exits.append(Exit(fr.guard, "return", None, fi.node, fi.qualname, facts=fr.facts))
         finally:
             self._stack.pop()
         summary.env = fr.env
@@ -328,7 +331,8 @@ class Evaluator:
         return False
 
     def add_exit(self, fr, kind, value, node, exc=None):
-        fr.summary.exits.append(Exit(fr.guard, kind, value, node, fr.fi.qualname if fr.fi else "<module>", exc))
+        fr.summary.exits.append(Exit(fr.guard, kind, value, node, fr.fi.qualname if fr.fi else "<module>", exc,
+                                     facts=fr.facts))
 
     def stmt(self, st, fr):
         if isinstance(st, ast.Return):
@@ -354,7 +358,8 @@ class Evaluator:
                 return False
             f2 = fr.fork(tm.lnot(c))
             f2.summary.exits.append(Exit(f2.guard, "raise", self.expr(st.msg, fr) if st.msg is not None else None, st,
-                                         fr.fi.qualname if fr.fi else "<module>", exc="AssertionError"))
+                                         fr.fi.qualname if fr.fi else "<module>", exc="AssertionError",
+                                         facts=fr.facts))
             if c is False:
                 return True
             fr.facts.append(c)
@@ -484,6 +489,9 @@ class Evaluator:
                     if parts:
                         key = ".".join(parts)
                         fr.env[key] = T("mutated", (meth, tm._fz(recv)) + tuple(tm._fz(a) for a in args), tm.tyof(recv))
+                elif isinstance(recv_node, ast.Subscript) and nm and nm in fr.env:
+                    fr.env[nm] = T("mutated", (meth, tm._fz(fr.env[nm]), tm._fz(recv)) + tuple(tm._fz(a) for a in args),
+                                   tm.tyof(fr.env[nm]))
                 return
         self.expr(e, fr)
 
@@ -725,7 +733,14 @@ class Evaluator:
         m = getattr(self, "e_" + type(e).__name__, None)
         if m is None:
             raise AnalysisError("expression kind not modelled: %s at %s:%d" % (type(e).__name__, fr.modname, e.lineno))
-        return m(e, fr)
+        r = m(e, fr)
+        if self.bind and isinstance(r, T) and r in self.bind:
+            return self.bind[r]
+        return r
+
+    def hazard(self, fr, exc, operand, node):
+        fr.summary.hazards.append((exc, operand, node, tuple(fr.guard), tuple(fr.facts),
+                                   fr.fi.qualname if fr.fi else "<module>"))
 
     def e_Constant(self, e, fr):
         return e.value
@@ -952,6 +967,7 @@ class Evaluator:
                 return T("slice3", (tm._fz(base), lo, hi, step), tm.tyof(base))
             return tm.slc(base, lo, hi)
         key = self.expr(e.slice, fr)
+        self._cur, self._curnode = fr, e
         if isinstance(base, T) and base.op == "ite":
             return tm.ite(base.args[0], self.index(_unfz(base.args[1]), key), self.index(_unfz(base.args[2]), key))
         return self.index(base, key)
@@ -966,14 +982,21 @@ class Evaluator:
                 if tm.veq(k, tm.freeze(key)):
                     return _unfz(v)
         if isinstance(base, dict) and isinstance(key, T):
-            return T("lookup", (tm.freeze(base), key), tm.ANY)
+            r = T("lookup", (tm.freeze(base), key), tm.ANY)
+            self.hazard(self._cur, "KeyError", r, self._curnode)
+            return r
         if isinstance(base, (list, tuple)) and isinstance(key, T):
             return T("idx", (tm.freeze(base), key), tm.ANY)
         if isinstance(base, T) and base.op == "param" and base.ty == tm.DICT:
             return T("field", (base, tm._fz(key)))
         if isinstance(base, T) and base.op in ("field", "bv") and isinstance(key, str):
             return T("field", (base, key))
-        return tm.idx(base, key)
+        r = tm.idx(base, key)
+        if isinstance(r, T) and r.op == "idx" and tm.veq(r.args[0], base):
+            self.hazard(self._cur, "IndexError" if tm.tyof(base) != tm.DICT else "KeyError", r, self._curnode)
+        elif isinstance(r, T) and r.op == "raise":
+            self.hazard(self._cur, r.args[0], r, self._curnode)
+        return r
 
     # ---- comprehensions
     def e_ListComp(self, e, fr):
@@ -1130,17 +1153,21 @@ class Evaluator:
                 return r
         opaque = q in self.policy.opaque or (self.policy.opaque_pred and self.policy.opaque_pred(q))
         if bound is None or opaque or fr.depth >= self.policy.max_depth or q in self._stack:
+            rty = ann_type(fi.node.returns)
             if bound is not None:
                 names = [p for p in fi.params() if p in bound]
                 a = fi.node.args
                 names += [p.arg for p in a.kwonlyargs if p.arg in bound]
-                return tm.app(q, [bound[n] for n in names])
-            return tm.app(q, pos, tuple(sorted(kw.items())))
+                return tm.app(q, [bound[n] for n in names], ty=rty)
+            return tm.app(q, pos, tuple(sorted(kw.items())), ty=rty)
         sub = self.run(fi, bound, depth=fr.depth + 1)
         fr.summary.loops.extend(sub.loops)
+        fr.summary.hazards.extend((h[0], h[1], h[2], tuple(fr.guard) + tuple(h[3]), tuple(fr.facts) + tuple(h[4]), h[5])
+                                  for h in sub.hazards)
         fr.summary.calls.extend((c[0], c[1], c[2], c[3], tuple(fr.guard) + tuple(c[4])) for c in sub.calls)
         for ex in sub.raises():
-            fr.summary.exits.append(Exit(tuple(fr.guard) + ex.guard, "raise", ex.value, ex.node, ex.func, ex.exc))
+            fr.summary.exits.append(Exit(tuple(fr.guard) + ex.guard, "raise", ex.value, ex.node, ex.func, ex.exc,
+                                         facts=tuple(fr.facts) + ex.facts))
             g = tm.land(list(ex.guard))
             if g is not True:
                 fr.facts.append(tm.lnot(g))
@@ -1149,6 +1176,7 @@ class Evaluator:
     # ---- methods on values
     def method(self, recv, meth, pos, kw, e, fr):
         ty = tm.tyof(recv)
+        fr.summary.calls.append(("method:" + meth, [recv] + list(pos), kw, e, tuple(fr.guard)))
         if isinstance(recv, T) and recv.op == "ite" and meth not in ("append",):
             return tm.ite(recv.args[0], self.method(_unfz(recv.args[1]), meth, pos, kw, e, fr),
                           self.method(_unfz(recv.args[2]), meth, pos, kw, e, fr))
@@ -1217,7 +1245,6 @@ class Evaluator:
             meths = fr.fi.module.classes.get(fr.fi.cls, {})
             if meth in meths:
                 return self.call_fn(meths[meth], [recv] + pos, kw, e, fr)
-        fr.summary.calls.append(("method:" + meth, [recv] + pos, kw, e, tuple(fr.guard)))
         return tm.app("m:" + meth, [recv] + pos, tuple(sorted(kw.items())))
 
     # ---- externs (builtins / stdlib), by name
